@@ -82,3 +82,22 @@ package pow
 //@   requires w != nil && w.numWorkers >= 1 && len(data) <= 9223372036854775799
 //@   check   len(powDigest) == 32 && forall(j, 0, 32, powDigest[j] == hashcat("blake2b256", data)[j])
 //@   check   targetZeros > 243 || !(math.Pow(consts.TrinaryRadix, float64(targetZeros)) / float64(len(data) + 8) < targetScore)
+
+// worker: a nonce that is returned is the base nonce of a batch plus the lane that checkStateTrits selected,
+// the trit buffer of lane j carries the b1t6 encoding of base + j in its nonce field (trits 192..239), and the
+// selected lane has `target` trailing zero trits in the state copied from the batched Curl (whose contract is
+// assumed, see /verif/contracts/deps/iota_bct.spec). The digest field of the buffers is not restated.
+//@ func (w *Worker) worker(powDigest []byte, startNonce uint64, target uint, done *uint32, counter *uint64) (r uint64, err error)
+//@   props C11
+//@   repr uint
+//@   intvar target
+//@   requires len(powDigest) == 32 && done != nil && counter != nil
+//@   panics  when target > 243
+//@   modifies *counter
+//@   loop 1 unroll
+//@   loop 2 invariant forall(j, 0, 64, len(buf[j]) == 243)
+//@   loop 2.1 unroll
+//@   check   implies(isnil(err), 0 <= i && i < 64 && r == nonce + uint64(i))
+//@   check   implies(isnil(err), bitat(orx(l, h, 243 - int(target), 243), i) == 0)
+//@   check   implies(isnil(err), forall(j, 0, 64, forall(k, 0, 8, b1t6.val6(buf[j], 192 + 6*k) == b1t6.sbyte(byte((nonce + uint64(j)) >> (8*k))))))
+//@   ensures implies(!isnil(err), r == 0)
